@@ -132,7 +132,7 @@ def run_random(job):
 
     async def script(rig):
         d = Driver(rig)
-        allcmds = ("readCounters", "nop", "getNodeId", "getNodeId", "sendUnicast", "readAndClearCounters", "sendMulticast", "sendBroadcast")
+        allcmds = ("readCounters", "nop", "getNodeId", "getNodeId", "sendUnicast", "readAndClearCounters", "sendMulticast", "sendBroadcast", "getValue")
         while d.nc < ncmds:
             outstanding = d.nc - len(d.done)
             r = rng.random()
@@ -187,7 +187,7 @@ def run(ctx: Ctx):
     R = 2 if ctx.quick else 3
     k = 0
     # every member of each priority class stands for its class in rotation
-    MEMBERS = {"readCounters": ("readCounters", "nop", "readAndClearCounters"), "getNodeId": ("getNodeId",),
+    MEMBERS = {"readCounters": ("readCounters", "nop", "readAndClearCounters", "getValue"), "getNodeId": ("getNodeId",),
                "sendUnicast": ("sendUnicast", "sendMulticast", "sendBroadcast")}
     for calls in itertools.product(CLASS_CMDS, repeat=3):
         for reacts in itertools.product(REACTIONS, repeat=R):
@@ -230,7 +230,7 @@ def run(ctx: Ctx):
     ctx.exhaustive = False
     ctx.assumptions += ["fake gateway (send_data completes, fails or stays pending as scripted); the harness plays a conforming NCP at frame level",
                         "response payloads are encoded with the version's own schema (codec fidelity is C07)",
-                        "priority classes of the property: {nop, readCounters, readAndClearCounters} > ordinary > {sendUnicast, sendMulticast, sendBroadcast}",
+                        "priority classes of the property: {nop, readCounters, readAndClearCounters, getValue(free buffers): the watchdog's keep-alive} > ordinary > {sendUnicast, sendMulticast, sendBroadcast}",
                         "a misnumbered reply never names the pending request of the same command; a reply hitting a stale registration may be dropped or handed to the callbacks once"]
 
 
